@@ -205,7 +205,7 @@ def child_env():
     return env
 
 
-def run_shards(prop, tier, seed, nshards, timeout, budget, replay=None, parallel=16):
+def run_shards(prop, tier, seed, nshards, timeout, budget, replay=None, parallel=16, shard_env=None):
     outdir = os.path.join(VERIF, 'out', prop)
     os.makedirs(outdir, exist_ok=True)
     procs = []
@@ -226,7 +226,10 @@ def run_shards(prop, tier, seed, nshards, timeout, budget, replay=None, parallel
                 cmd += ['--replay', replay]
             logp = outp + '.log'
             logf = open(logp, 'w')
-            p = subprocess.Popen(cmd, cwd=VERIF, env=child_env(), stdout=logf,
+            env = child_env()
+            if shard_env is not None:
+                env.update(shard_env(i, nshards) or {})
+            p = subprocess.Popen(cmd, cwd=VERIF, env=env, stdout=logf,
                                  stderr=subprocess.STDOUT)
             running[i] = (p, outp, logp, logf, time.time())
         for i in list(running):
@@ -325,7 +328,8 @@ def drive(prop, tier, replay=None, shards=None):
                         os.remove(os.path.join(outdir, fn))
                     except OSError:
                         pass
-    results, errors, wall = run_shards(prop, tier, seed, nshards, timeout, budget, replay)
+    results, errors, wall = run_shards(prop, tier, seed, nshards, timeout, budget, replay,
+                                       shard_env=getattr(mod, 'shard_env', None))
     agg = aggregate(results)
     kf = load_known_findings()
     reasons = list(errors) + list(agg['inconclusive'])
